@@ -38,6 +38,13 @@ CLAIMS = {
             "is NOT proved yet and rests on the tie: the `roundtrip` suite builds four middlewares (from c, from Config(), zero+Reconfigure, Reconfigure(Config())) and compares their Go responses pairwise in both debug modes "
             "plus Config() stability; the `history` suite includes Reconfigure(Config()) steps; the `validate` suite compares Config() with the model's.",
             '6/C06', 'PARTIAL: only the clauses named above are theorems; origins/methods/header lists and max-age round trips rest on the differential and relational suites.'),
+    'C07': ('proof', 'Lean 4 invariant proof over a lock-level small-step model (any number of threads, any schedule) with programs regenerated from the source + schedule-point harness + race-detector stress',
+            "Theorems C07_drf (in every reachable state a thread about to write a guarded field has no concurrent reader/writer of a guarded field) and C07_atomic (when a reader leaves its critical section everything it read there equals the shared state "
+            "at that instant and no writer is inside a critical section), by induction over arbitrary traces of arbitrarily many threads running well-locked programs (Props/C07.lean, Model/Conc.lean); C07_facts / C07_wrap_snapshot / C07_only_these / C07_immutable "
+            "(decide over facts regenerated from middleware.go on every run): the instruction lists of Wrap's handler, Reconfigure, SetDebug, Config, NewMiddleware are well-locked with one critical section each, Wrap reads both fields inside its read region, "
+            "no other function touches the guarded fields, the request path never writes through the configuration. Tie: `schedule` suite (Reconfigure/SetDebug/Config executed from inside Header(), WriteHeader and the wrapped handler; response must be that of the "
+            "entry state, next request that of the new state), `stress` suite (every response equals that of one of the four states; thorough tier under go build -race), `history` suite.",
+            '6/C07', 'PARTIAL w.r.t. the Go runtime: that sync.RWMutex implements the modelled lock semantics, that the Go memory model makes lock-ordered accesses race-free, and that the extracted instruction lists are what the compiled code does, are trusted; the race detector and the schedule-point harness exercise them.'),
     'C08': ('proof', 'Lean 4 theorem on the sequential state machine + history correspondence',
             "Theorems C08 / C08_error_iff / C08_obs (Props/C08.lean): for every state and every Config that validation rejects, Reconfigure returns the "
             "error and the model state (configuration, debug) is literally unchanged, hence all responses and Config() too. Tie: random histories "
@@ -88,6 +95,17 @@ CLAIMS = {
             "success status (distinct for accepted configurations); with the failure status nothing but Vary changes; every header value the middleware sets is `*`, `true`, "
             "`*,authorization`, the configured max-age or a slice of the request (first Origin, first ACRM, the ACRH lines) - never the configured allow-lists. Tie: serve suite.",
             '6/C16', 'The failure status is a regenerated fact (403 today); a per-reason status breaks the fact-dependent model and the tie.'),
+    'C17': ('proof', 'Lean 4 theorems: totality of the model (structural recursion accepted by the kernel) + the preconditions of every manual index/slice of the Go code + recover-instrumented differential tie',
+            "PARTIAL. Every function of the model is total by structural recursion. Theorems C17_value_nonempty / C17_insert_key_nonempty (the host value of every accepted pattern, and the key handed to the tree loop after stripping `*`, is non-empty; "
+            "a subdomain pattern is `*.` + non-empty base: Tree.Insert's s[0] and hostOnly's Value[2:]), C17_indexAfter_lt (IndexAfter's precondition n < Size is maintained by Check), C17_cutAtComma_in_range (str[i+1:]), C17_bracket_end (str[1:end]), "
+            "C17_status_range (uint8 status arithmetic cannot wrap for accepted configurations), C17_parsePort_hoist (Props/C17.lean). Tie: every call of every suite (lex, tree, acrh, validate, serve, errors, history) runs under recover; a panic is a mismatch with its input as replay.",
+            '6/C17', 'PARTIAL: panics inside library calls and the Go runtime (nil maps from a broken ResponseWriter, stack exhaustion) are outside the model; an indexed re-statement of every slicing site (Model/Indexed) is not built, only the preconditions are proved.'),
+    'C18': ('other', 'Lean 4 cost-model theorem + regenerated loop/install facts + allocation measurement (testing.AllocsPerRun) over size families',
+            "PARTIAL. Theorem C18_bound (Props/C18.lean): in the cost semantics of the model (allocating header primitives; scanners return sub-views and are cost-free by construction) every request costs at most 4, "
+            "independently of every length and element count. C18_no_alloc_in_loops / C18_loop_callees / C18_preflight_installs: regenerated facts (decide): no append/make/new/string concatenation/conversion/literal inside any `for` loop "
+            "of the request path, loop callees within a fixed allow-list, preflight installs are sub-views or pre-built values. Measured conformance: the `allocs` suite measures testing.AllocsPerRun for 56 families at sizes 1 B .. 1 MiB / "
+            "1 .. 100 000 elements and requires a count that does not grow and stays <= 8.",
+            '6/C18', 'Whether Go allocates is decided by escape analysis and the runtime: not expressible in the model; the claim about the real code rests on the measurement.'),
     'C19': ('proof', 'Lean 4 theorem by mutual structural induction over join trees + differential tie',
             "Theorems C19 / C19_full / C19_break (Props/C19.lean): for every join tree and every consumer (hence every break position) "
             "the model of cfgerrors.All never yields after stop and yields exactly the accepted prefix of the leaves. The model is tied to "
